@@ -79,6 +79,7 @@ type XOpts struct {
 	Arrays             bool
 	UserPtrs           bool
 	Unexported         bool         // unexported fields (raw types only make sense with them)
+	ForceEmptyEmbed    bool         // the first two top-level fields are embedded structs: one with unexported fields only (hoists nothing), one with >= 2 fields
 	ForcePrefixPair    bool         // the first top-level field is an embedded struct whose first two fields are (pointer-to-)struct fields named N and N+"Replica"
 	Favor              reflect.Type // a scalar type drawn more often (the type the chain's substitution mangler replaces)
 	OddNames           bool         // some field names start with a non-ASCII upper-case letter
@@ -313,6 +314,29 @@ func (g *XGen) Struct(depth int) reflect.Type {
 		var sf reflect.StructField
 		x := r.Intn(100)
 		structy := false
+		if o.ForceEmptyEmbed && depth == 0 && i == 0 {
+			// run-time state only: Pointerify leaves an embedded pointer to an EMPTY struct
+			g.un++
+			state := reflect.StructOf([]reflect.StructField{
+				{Name: fmt.Sprintf("hits%d", g.un), PkgPath: "verifharness/gen", Type: reflect.TypeOf(uint64(0))},
+				{Name: fmt.Sprintf("note%d", g.un), PkgPath: "verifharness/gen", Type: reflect.TypeOf("")}})
+			fields = append(fields, reflect.StructField{Name: name, Type: state, Anonymous: true})
+			save, saveW := g.O.MaxDepth, g.O.MaxWidth
+			g.O.MaxDepth = depth + 1
+			if g.O.MaxWidth < 3 {
+				g.O.MaxWidth = 3
+			}
+			var later reflect.Type
+			for later == nil || later.NumField() < 2 {
+				later = g.Struct(depth + 1)
+			}
+			g.O.MaxDepth, g.O.MaxWidth = save, saveW
+			if r.Chance(1, 2) {
+				later = reflect.PtrTo(later)
+			}
+			fields = append(fields, reflect.StructField{Name: g.name(), Type: later, Anonymous: true})
+			continue
+		}
 		if o.ForcePrefixPair && depth == 0 && i == 0 && depth+1 < o.MaxDepth {
 			// adjacent nested-struct fields whose names are prefixes of one another
 			// (DB / DBReplica), of the same kind, inside an embedded struct
@@ -354,6 +378,12 @@ func (g *XGen) Struct(depth int) reflect.Type {
 			structy = true
 		case o.Embedded && depth < o.MaxDepth && x < 42:
 			t := g.Struct(depth + 1)
+			if r.Chance(1, 8) {
+				// only unexported (run-time) state: nothing to hoist
+				g.un++
+				t = reflect.StructOf([]reflect.StructField{
+					{Name: fmt.Sprintf("state%d", g.un), PkgPath: "verifharness/gen", Type: reflect.TypeOf(uint64(0))}})
+			}
 			if r.Chance(1, 2) {
 				t = reflect.PtrTo(t)
 			}
